@@ -296,8 +296,12 @@ SB_extends(SB* self, PyObject* other)
         return NULL;
     }
 
-    if (PyDict_GetItem(implied, other) != NULL)
+    if (PyDict_GetItemWithError(implied, other) != NULL)
         Py_RETURN_TRUE;
+    if (PyErr_Occurred()) {
+        /* e.g. an unhashable *other*; the Python version raises, too. */
+        return NULL;
+    }
     Py_RETURN_FALSE;
 }
 
